@@ -180,6 +180,9 @@ static void config_case(uint32_t k, uint32_t r, uint32_t N1, uint32_t seed, int 
 		else if (!D.staircase_ok || !rows_equal_oracle(&D, M, &bad)) rep_viol("matrix-differs-from-rfc", "decoder session: row %u differs from RFC 5170 for k=%u r=%u N1=%u seed=%u", bad, k, r, N1, seed);
 		if (!rows_equal(&E, &D, &bad)) rep_viol("enc-dec-matrix-differ", "row %u differs between an encoder and a decoder session", bad);
 		if (have_bb && !rows_equal_oracle(&B, M, &bad)) rep_viol("matrix-differs-from-rfc", "equations revealed by encoding unit vectors: row %u differs from RFC 5170 (k=%u r=%u N1=%u seed=%u)", bad, k, r, N1, seed);
+		/* a session that claims a null last repair symbol works with the extra equation p_{n-1} = 0 (a decoder injects that symbol):
+		 * RFC 5170's equations imply it only when every source column has even weight */
+		if ((ce == 1 || cd == 1) && !M->all_source_cols_even) rep_viol("session-assumes-equation-not-in-rfc", "null-last-symbol claim enc=%d dec=%d but RFC 5170's matrix has a source column of odd weight (k=%u r=%u N1=%u seed=%u)", ce, cd, k, r, N1, seed);
 		if (have_bb) rep_count("configs_observed_black_box", 1);
 		rep_count("configs_observed_white_box", 2);
 		if (with_child) {
@@ -330,6 +333,16 @@ static int worker(void)
 			config_case(k, r, N1, 1 + (uint32_t)(rng_u64(&rng) % 2147483646u), (int)rng_below(&rng, 3), &rng, 0);
 		}
 	}
+	/* (N1*k)^2 around and above 2^33: the number of PRNG draws times the range of each draw is large enough for a one-in-2^31
+	 * deviation of the scaling to show in a single matrix */
+	rep_unit(unit);
+	if (rep_unit_mine(unit)) {
+		rng_t rng = rng_make(g_run.seed, 585, 0);
+		config_case(30000, 300, 8, fixed_seeds[g_run.seed % 4], 0, &rng, 0);
+		config_case(12000, 6000, 10, 1 + (uint32_t)(rng_u64(&rng) % 2147483646u), 1, &rng, 0);
+		config_case(49000, 1000, 6, 16807, 2, &rng, 0);
+	}
+	unit++;
 	/* larger configurations */
 	static const uint32_t lk[] = { 64, 100, 257, 1000, 5000, 20000, 49997 };
 	for (unsigned i = 0; i < sizeof lk / sizeof lk[0]; i++, unit++) {
